@@ -17,7 +17,7 @@ import (
 	"verif/mon"
 )
 
-var c08Scripts = []string{"expire", "renew-errors", "demote", "handoff-connected", "handoff-unknown", "handoff-disconnected", "non-candidate", "cluster-id-mismatch", "cluster-id-adopt", "acquire-error", "primary-info-stale", "static"}
+var c08Scripts = []string{"expire", "renew-errors", "demote", "handoff-connected", "handoff-chain", "handoff-unknown", "handoff-disconnected", "non-candidate", "cluster-id-mismatch", "cluster-id-adopt", "acquire-error", "primary-info-stale", "static"}
 
 func init() {
 	register(&core.Check{
@@ -455,6 +455,82 @@ func runC08(c *core.Case) {
 			if !n.Store.IsPrimary() {
 				c.Violate("C08/primary-lost-on-refused-handoff", "n0 stopped being primary after a refused handoff", detail())
 			}
+		}
+	case "handoff-chain":
+		// n0 -> n1 -> n0 (-> n1 ...): every handoff goes to the requested node only
+		n, w, ok := startPrimary()
+		if !ok {
+			return
+		}
+		w.close()
+		_ = n
+		for i := 0; i < len(opts); i++ {
+			setBlock(fmt.Sprintf("n%d", i), "acquire", errors.New("scripted: acquire unavailable"))
+		}
+		for i := 1; i < len(opts); i++ {
+			if err := cl.Start(i); err != nil {
+				c.Inconclusive(err.Error())
+				return
+			}
+			if !cl.WaitConnected(i, 10*time.Second) {
+				c.Inconclusive("replica did not connect")
+				return
+			}
+		}
+		cur, next := 0, 1
+		var wantSeq []string
+		hops := 2 + variant%2
+		for h := 0; h < hops; h++ {
+			from, to := cl.Nodes[cur], cl.Nodes[next]
+			// the target must be connected to the current primary
+			deadline := time.Now().Add(10 * time.Second)
+			for from.Store.SubscriberByNodeID(to.Store.ID()) == nil && time.Now().Before(deadline) {
+				time.Sleep(2 * time.Millisecond)
+			}
+			o.mu.Lock()
+			o.handedOff[from.Name] = true
+			o.handedOff[to.Name] = false
+			o.mu.Unlock()
+			if err := from.Store.Handoff(context.Background(), to.Store.ID()); err != nil {
+				c.Violate("C08/handoff-to-connected-failed", fmt.Sprintf("hop %d %s->%s: %v", h, from.Name, to.Name, err), detail())
+				return
+			}
+			wantSeq = append(wantSeq, to.Name)
+			if cl.WaitPrimary(to.Index, 10*time.Second) == nil {
+				c.Violate("C08/handoff-not-completed", fmt.Sprintf("hop %d: %s did not become primary", h, to.Name), detail())
+				return
+			}
+			if !o.waitFor(5*time.Second, func() bool { return !from.Store.IsPrimary() }) {
+				c.Violate("C08/still-primary-after-loss", fmt.Sprintf("hop %d: %s still primary after handing its lease off", h, from.Name), detail())
+				return
+			}
+			c.Count("loss_by_handoff", 1)
+			cur, next = next, cur
+		}
+		// let everything settle, then compare the acquire-existing sequence
+		time.Sleep(150 * time.Millisecond)
+		var gotSeq []string
+		for _, call := range cl.Svc.Calls() {
+			if call.Op == "acquire-existing" {
+				gotSeq = append(gotSeq, call.Node)
+			}
+		}
+		if strings.Join(gotSeq, ",") != strings.Join(wantSeq, ",") {
+			c.Violate("C08/handoff-to-wrong-node", fmt.Sprintf("handoffs were requested to %v but AcquireExisting was called by %v", wantSeq, gotSeq), detail())
+			return
+		}
+		holder, _ := cl.Svc.Holder()
+		prim := 0
+		for _, nn := range cl.Nodes {
+			if nn.Up && nn.Store.IsPrimary() {
+				prim++
+				if nn.Name != holder {
+					c.Violate("C08/primary-without-lease", fmt.Sprintf("%s is primary but the service records %q as holder", nn.Name, holder), detail())
+				}
+			}
+		}
+		if prim != 1 {
+			c.Violate("C08/two-primaries-after-handoff-chain", fmt.Sprintf("%d nodes report primary after the handoff chain settled (holder %s)", prim, holder), detail())
 		}
 	case "non-candidate":
 		if err := cl.Start(0); err != nil {
